@@ -324,4 +324,186 @@ theorem concatVal_uniform [Inhabited α] (a S : Nat) :
         rwa [Nat.sub_add_cancel hge] at this
       rw [hdiv, hmod, List.getD_cons_succ]
 
+/-! ### axis normalisation -/
+
+theorem normAxis_some_iff (axis : Int) (n a : Nat) :
+    normAxis axis n = some a ↔ (-(n : Int) ≤ axis ∧ axis < n) ∧ a = (axis % (n : Int)).toNat := by
+  unfold normAxis
+  by_cases h : -(n : Int) ≤ axis ∧ axis < n
+  · simp only [h, and_self, if_true, Option.some.injEq, true_and]
+    have hn : (0 : Int) < n := by omega
+    by_cases hneg : axis < 0
+    · simp only [hneg, if_true]
+      have : axis % (n : Int) = axis + n := by
+        rw [← Int.add_emod_right]; exact Int.emod_eq_of_lt (by omega) (by omega)
+      rw [this]; constructor <;> (intro h; omega)
+    · simp only [hneg, if_false]
+      have : axis % (n : Int) = axis := Int.emod_eq_of_lt (by omega) (by omega)
+      rw [this]; constructor <;> (intro h; omega)
+  · simp [h]
+
+theorem normAxis_lt {axis : Int} {n a : Nat} (h : normAxis axis n = some a) : a < n := by
+  obtain ⟨⟨h1, h2⟩, h3⟩ := (normAxis_some_iff axis n a).1 h
+  have hn : (0 : Int) < n := by omega
+  have := Int.emod_lt_of_pos axis hn
+  have := Int.emod_nonneg axis (show (n : Int) ≠ 0 by omega)
+  omega
+
+theorem normAxis_none_iff (axis : Int) (n : Nat) :
+    normAxis axis n = none ↔ ¬ (-(n : Int) ≤ axis ∧ axis < n) := by
+  unfold normAxis
+  by_cases h : -(n : Int) ≤ axis ∧ axis < n <;> simp [h]
+
+theorem normAxis_natCast {a n : Nat} (h : a < n) : normAxis (a : Int) n = some a := by
+  rw [normAxis_some_iff]
+  refine ⟨by omega, ?_⟩
+  rw [Int.emod_eq_of_lt (by omega) (by omega)]
+  simp
+
+/-- `axis % ndim` (Python's `%`) as used by `Deltas.apply` / `Stack.apply` is a legal axis -/
+theorem emod_axis_lt (axis : Int) {n : Nat} (hn : n ≠ 0) : (axis % (n : Int)).toNat < n := by
+  have hn' : (0 : Int) < n := by omega
+  have := Int.emod_lt_of_pos axis hn'
+  have := Int.emod_nonneg axis (show (n : Int) ≠ 0 by omega)
+  omega
+
+/-! ### concatenate / stack of equally shaped parts -/
+
+theorem sum_map_const {β : Type} (f : β → Nat) (S : Nat) :
+    ∀ (l : List β), (∀ t ∈ l, f t = S) → (l.map f).sum = S * l.length
+  | [], _ => by simp
+  | t :: l, h => by
+    have := sum_map_const f S l (fun u hu => h u (by simp [hu]))
+    simp only [List.map_cons, List.sum_cons, List.length_cons, this, h t (by simp), Nat.mul_succ]
+    omega
+
+theorem concatenate_uniform [Inhabited α] (t0 : Tensor α) (rest : List (Tensor α)) (axis : Int) (a : Nat)
+    (hsh : ∀ t ∈ rest, t.shape = t0.shape) (hr : t0.shape.length ≠ 0)
+    (ha : normAxis axis t0.shape.length = some a) :
+    concatenate (t0 :: rest) axis
+      = .ok (ofFn (t0.shape.set a (t0.shape.getD a 0 * (rest.length + 1)))
+          fun idx => concatVal (t0 :: rest) a idx) := by
+  have h1 : (rest.all fun t => decide (t.shape.length = t0.shape.length)) = true := by
+    rw [List.all_eq_true]; intro t ht; simp [hsh t ht]
+  have h2 : (rest.all fun t => decide (t.shape.set a 0 = t0.shape.set a 0)) = true := by
+    rw [List.all_eq_true]; intro t ht; simp [hsh t ht]
+  have h3 : ((t0 :: rest).map fun t => t.shape.getD a 0).sum = t0.shape.getD a 0 * (rest.length + 1) := by
+    have := sum_map_const (fun t : Tensor α => t.shape.getD a 0) (t0.shape.getD a 0) (t0 :: rest)
+      (by intro t ht; rcases List.mem_cons.1 ht with h | h
+          · rw [h]
+          · show t.shape.getD a 0 = t0.shape.getD a 0
+            rw [hsh t h])
+    simpa using this
+  simp only [concatenate, hr, if_false, h1, if_true, ha, h2, h3]
+
+theorem concatenate_axisErr [Inhabited α] (t0 : Tensor α) (rest : List (Tensor α)) (axis : Int)
+    (hsh : ∀ t ∈ rest, t.shape = t0.shape) (hr : t0.shape.length ≠ 0)
+    (ha : normAxis axis t0.shape.length = none) :
+    concatenate (t0 :: rest) axis = .error .axisErr := by
+  have h1 : (rest.all fun t => decide (t.shape.length = t0.shape.length)) = true := by
+    rw [List.all_eq_true]; intro t ht; simp [hsh t ht]
+  simp only [concatenate, hr, if_false, h1, if_true, ha]
+
+theorem stack_uniform [Inhabited α] (t0 : Tensor α) (rest : List (Tensor α)) (axis : Int) (a : Nat)
+    (hsh : ∀ t ∈ rest, t.shape = t0.shape) (ha : normAxis axis (t0.shape.length + 1) = some a) :
+    stack (t0 :: rest) axis
+      = .ok (ofFn (t0.shape.insertIdx a (rest.length + 1)) fun idx =>
+          ((t0 :: rest).getD (idx.getD a 0) t0).val (idx.eraseIdx a)) := by
+  have h1 : (rest.all fun t => decide (t.shape = t0.shape)) = true := by
+    rw [List.all_eq_true]; intro t ht; simp [hsh t ht]
+  simp only [stack, h1, if_true, ha, List.length_cons]
+
+theorem stack_axisErr [Inhabited α] (t0 : Tensor α) (rest : List (Tensor α)) (axis : Int)
+    (hsh : ∀ t ∈ rest, t.shape = t0.shape) (ha : normAxis axis (t0.shape.length + 1) = none) :
+    stack (t0 :: rest) axis = .error .axisErr := by
+  have h1 : (rest.all fun t => decide (t.shape = t0.shape)) = true := by
+    rw [List.all_eq_true]; intro t ht; simp [hsh t ht]
+  simp only [stack, h1, if_true, ha]
+
+/-- an index valid for `shape.insertIdx a n` splits into a coordinate `< n` and an index valid for
+`shape` -/
+theorem valid_insertIdx {shape idx : List Nat} {a n : Nat} (ha : a ≤ shape.length)
+    (h : valid (shape.insertIdx a n) idx = true) :
+    idx.getD a 0 < n ∧ valid shape (idx.eraseIdx a) = true := by
+  rw [valid_iff] at h
+  obtain ⟨hl, hp⟩ := h
+  have hlen : (shape.insertIdx a n).length = shape.length + 1 := by
+    rw [List.length_insertIdx]; simp [ha]
+  rw [hlen] at hl hp
+  constructor
+  · have := hp a (by omega)
+    simpa [List.getD_eq_getElem?_getD, List.getElem?_insertIdx, ha] using this
+  · rw [valid_iff]
+    refine ⟨by rw [List.length_eraseIdx]; simp [hl]; omega, ?_⟩
+    intro b hb
+    simp only [List.getD_eq_getElem?_getD, List.getElem?_eraseIdx]
+    by_cases hba : b < a
+    · have := hp b (by omega)
+      simpa [List.getD_eq_getElem?_getD, List.getElem?_insertIdx, hba] using this
+    · have := hp (b + 1) (by omega)
+      have h1 : ¬ (b + 1 < a) := by omega
+      have h2 : ¬ (b + 1 = a) := by omega
+      simpa [List.getD_eq_getElem?_getD, List.getElem?_insertIdx, hba, h1, h2] using this
+
+theorem valid_insertIdx_mk {shape idx : List Nat} {a n v : Nat} (ha : a ≤ shape.length)
+    (h : valid shape idx = true) (hv : v < n) :
+    valid (shape.insertIdx a n) (idx.insertIdx a v) = true := by
+  rw [valid_iff] at h ⊢
+  obtain ⟨hl, hp⟩ := h
+  have hlen : (shape.insertIdx a n).length = shape.length + 1 := by
+    rw [List.length_insertIdx]; simp [ha]
+  have hlen' : (idx.insertIdx a v).length = idx.length + 1 := by
+    rw [List.length_insertIdx]; simp [hl, ha]
+  refine ⟨by omega, ?_⟩
+  intro b hb
+  rw [hlen] at hb
+  simp only [List.getD_eq_getElem?_getD, List.getElem?_insertIdx]
+  by_cases hba : b < a
+  · simpa [hba, List.getD_eq_getElem?_getD] using hp b (by omega)
+  · by_cases hbe : b = a
+    · subst hbe; simp [hl, ha, hv]
+    · have := hp (b - 1) (by omega)
+      simpa [hba, hbe, List.getD_eq_getElem?_getD] using this
+
+theorem getD_irrel {β : Type} (l : List β) (n : Nat) (a b : β) (h : n < l.length) :
+    l.getD n a = l.getD n b := by
+  simp [List.getD_eq_getElem?_getD, List.getElem?_eq_getElem h]
+
+theorem concatenate_uniform' [Inhabited α] (ts : List (Tensor α)) (sh : List Nat) (axis : Int) (a : Nat)
+    (hne : ts ≠ []) (hsh : ∀ t ∈ ts, t.shape = sh) (hr : sh.length ≠ 0)
+    (ha : normAxis axis sh.length = some a) :
+    concatenate ts axis
+      = .ok (ofFn (sh.set a (sh.getD a 0 * ts.length)) fun idx => concatVal ts a idx) := by
+  cases ts with
+  | nil => exact absurd rfl hne
+  | cons t0 rest =>
+    have h0 : t0.shape = sh := hsh t0 (by simp)
+    subst h0
+    exact concatenate_uniform t0 rest axis a (fun t ht => hsh t (by simp [ht])) hr ha
+
+theorem sliceLen_strided (i nT n len : Nat) (hi : i < n) (hle : nT * n ≤ len) :
+    sliceLen i (nT * n) n len = nT := by
+  unfold sliceLen
+  simp only [Nat.min_eq_left hle]
+  by_cases h : i < nT * n
+  · simp only [h, if_true]
+    have : nT * n - i + n - 1 = n * nT + (n - 1 - i) := by
+      rw [Nat.mul_comm n nT]; omega
+    rw [this, Nat.mul_add_div (by omega), Nat.div_eq_of_lt (by omega), Nat.add_zero]
+  · simp only [h, if_false]
+    rcases Nat.eq_zero_or_pos nT with h0 | h0
+    · exact h0.symm
+    · exfalso
+      have : n ≤ nT * n := Nat.le_mul_of_pos_left n h0
+      omega
+
+theorem sliceLen_prefix (T len : Nat) (hle : T ≤ len) : sliceLen 0 T 1 len = T := by
+  unfold sliceLen
+  simp only [Nat.min_eq_left hle]
+  by_cases h : 0 < T
+  · simp [h]
+  · simp [h]; omega
+
+theorem copy_eq (t : Tensor α) : t.copy = t := rfl
+
 end PdsVerif.Model.Tensor
